@@ -270,6 +270,20 @@ def cursorUpdates (evs : Array Ev) (pc : String) : List (Nat × Nat) :=
     else if e.kind == "cas" && e.args.head? == some pc && e.obs == "1" then some (natAt e.args 2, pos)
     else none
 
+/-- multi producer: did some writer store a smaller value into the low watermark than was stored there before? (the only plain
+`st` a writer thread performs is `low_watermark.set`) -/
+def lwRegressed (evs : Array Ev) : Bool := Id.run do
+  let mut best : List (String × Nat) := []
+  let mut bad := false
+  for e in evs do
+    if e.kind == "st" && e.tid.startsWith "W" then
+      let l := e.args.headD ""
+      let v := natAt e.args 1
+      match best.find? (·.1 == l) with
+      | some (_, m) => if v < m then bad := true else best := (l, v) :: best.filter (·.1 != l)
+      | none => best := (l, v) :: best
+  return bad
+
 def specC04 (s : St) (status : String) : List String := Id.run do
   let evs := s.evs
   let hd := handledOf evs
@@ -296,7 +310,7 @@ def specC04 (s : St) (status : String) : List String := Id.run do
           let lastCur := (cups.getLast?.map (·.1)).getD 0
           let kind := if extra.isEmpty && !missing.isEmpty && missing == wseqs.filter (· > lastCur) then "stranded-tail"
                       else if extra.isEmpty && missing == [0] then "first-event" else "other"
-          out := out ++ [s!"SPECFAIL C04 handler {k}.{j} delivered≠published kind={kind} missing={missing.take 8} extra={extra.take 8} producer={if s.cfg.multi then "multi" else "single"}"]
+          out := out ++ [s!"SPECFAIL C04 handler {k}.{j} delivered≠published kind={kind} missing={missing.take 8} extra={extra.take 8} producer={if s.cfg.multi then "multi" else "single"} lwRegressed={lwRegressed evs}"]
       -- payload (not judged for a handler that shares its stage with a mutable handler: within such a stage the order of the
       -- handlers is undefined — known finding F9, reported under C05)
       let mixed := stage.length ≥ 2 && stage.any id
@@ -518,7 +532,7 @@ def specC14 (s : St) (status : String) : List String := Id.run do
     let hi := claims.foldl (fun m c => Nat.max m c.2.1) 0
     let last := (cups.getLast?.map (·.1)).getD 0
     if last != hi then
-      out := out ++ [s!"SPECFAIL C14 all claimants published but cursor={last} highest-claimed={hi} producer={if s.cfg.multi then "multi" else "single"}"]
+      out := out ++ [s!"SPECFAIL C14 all claimants published but cursor={last} highest-claimed={hi} producer={if s.cfg.multi then "multi" else "single"} lwRegressed={lwRegressed evs}"]
   return out
 
 def dedup (l : List String) : List String := l.foldl (fun acc x => if acc.contains x then acc else acc ++ [x]) []
